@@ -13,6 +13,10 @@ pub struct C01;
 impl Checker for C01 {
     fn check(&self, _cfg: &Cfg, ops: &[Op], ex: &Exec) -> Vec<(String, String)> {
         let mut v = o::o_result("C01", ops, ex);
+        if !v.is_empty() {
+            // a wrong result already desynchronises the model: report the root cause only
+            return v;
+        }
         v.extend(o::o_tree_boundary("C01", ops, ex));
         v.extend(o::o_tree_suffix("C01", ex, false));
         v
@@ -31,6 +35,9 @@ pub fn alphabet(cs: u32) -> Vec<Op> {
         a.push(Op::CreateFile { base: r, path: s(p), keep: None });
     }
     a.push(Op::CreateFile { base: r, path: long256(), keep: None });
+    // 100 units: 8 long-name slots + 1 -> fills a 16-slot root quickly
+    a.push(Op::CreateFile { base: r, path: "m".repeat(100), keep: None });
+    a.push(Op::CreateDir { base: r, path: "k".repeat(100), keep: None });
     for p in ["d", "D", "d/e", "a", "x:y", "nodir/e", "long-name-1.txt/z"] {
         a.push(Op::CreateDir { base: r, path: s(p), keep: None });
     }
@@ -68,6 +75,8 @@ pub fn alphabet(cs: u32) -> Vec<Op> {
     a.push(Op::CreateFile { base: r, path: s("d/a"), keep: Some(1) });
     a.push(Op::Write { h: 0, len: cs + 1 });
     a.push(Op::Write { h: 1, len: cs + 1 });
+    a.push(Op::WriteAll { h: 0, len: 4 * cs });
+    a.push(Op::WriteAll { h: 1, len: 4 * cs });
     a.push(Op::DropFile { h: 0 });
     a.push(Op::DropFile { h: 1 });
     a.push(Op::OpenDir { base: r, path: s("d"), keep: Some(0) });
@@ -84,8 +93,8 @@ pub fn alphabet(cs: u32) -> Vec<Op> {
 pub fn specs(tier: &str) -> Vec<ExpSpec> {
     let th = is_thorough(tier);
     let mut v = Vec::new();
-    for (ft, dq, dt) in [(FatType::Fat12, 3, 5), (FatType::Fat16, 3, 4), (FatType::Fat32, 3, 4)] {
-        let cfg = vol::tiny(ft);
+    for (ft, dq, dt) in [(FatType::Fat12, 4, 6), (FatType::Fat16, 4, 5), (FatType::Fat32, 4, 5)] {
+        let cfg = vol::tiny_with(ft, 8, 16);
         v.push(ExpSpec { cfg, alphabet: alphabet(512), depth: if th { dt } else { dq } });
     }
     v
